@@ -250,6 +250,27 @@ def handcode(F, res):
         tr = i.get("trait") or ""
         if i.get("crate") == "tx3_tir" and re.search(r"(^|::)_?serde::|^serde::", tr) and not i.get("derived"):
             bad.setdefault("impl %s for %s" % (tr.split("::")[-1], i.get("self")), "hand-written impl of a serde trait")
+    # (c) a hand-written Visitor that accepts integers must accept every width the writer can emit: ciborium's deserialize_any
+    # hands a positive integer above u64::MAX to visit_u128, a negative one below i64::MIN to visit_i128, the rest to
+    # visit_u64 / visit_i64 (serde's defaults for the 128-bit methods are errors)
+    vis = {}
+    for p, f in F.fns.items():
+        if f["crate"] == "tx3_tir" and not is_derive(f) and (f.get("impl_trait") or "").endswith("de::Visitor") and (f.get("name") or "").startswith("visit_"):
+            vis.setdefault(f.get("impl_self"), {})[f["name"]] = f
+    wide_writer = any((t.get("method") in ("serialize_i128", "serialize_u128")) for g in F.fns.values() if g["crate"] == "tx3_tir" and not is_derive(g) for _, t in mir.calls(g))
+    for selfty, ms in sorted(vis.items()):
+        ints = {m for m in ms if re.fullmatch(r"visit_[iu](8|16|32|64|128)", m)}
+        if not ints:
+            continue
+        any_f = next(iter(ms.values()))
+        keyv = "%s|integer visitor accepts every width" % selfty
+        need = {"visit_i64", "visit_u64"} | ({"visit_i128", "visit_u128"} if (wide_writer or "visit_i128" in ints or "visit_u128" in ints) else set())
+        missing = sorted(need - ints)
+        if missing:
+            res.add([finding("HANDCODE", keyv, where(any_f), "the hand-written visitor %s accepts %s but not %s: the CBOR reader hands integers of that range to the missing method, whose default is an error - a value the writer emits no longer decodes" % (
+                selfty.split("::")[-1], ", ".join(sorted(ints)), ", ".join(missing)))])
+        else:
+            res.add([ok("HANDCODE", keyv, where(any_f), "visit_i64 / u64 / i128 / u128 all implemented")])
     key = "tx3_tir wire types|codec is derive-generated only"
     if not bad:
         res.add([ok("HANDCODE", key, "crates/tx3-tir/src/model", "%d serde-generated functions call no hand-written workspace function; no hand-written impl of a serde trait in tx3_tir" % len(gen))])
